@@ -461,6 +461,94 @@ fn runtime_err_s(rt: &digital_test_runner::errors::RuntimeError) -> String {
     }
 }
 
+/// The values a run with this seed draws for this sequence of bounds when the program is the
+/// simplest one that draws them: one data row `(random(b))` per bound, static iteration (no driver).
+/// `None` if that plain program does not yield them (then nothing is claimed).
+fn calibration_draws(seed: u64, bounds: &[i64]) -> Option<Vec<i64>> {
+    let mut src = String::from("CALIN\n");
+    for b in bounds {
+        let _ = writeln!(src, "(random({b}))");
+    }
+    let tc = ParsedTestCase::from_str(&src)
+        .ok()?
+        .with_signals(vec![Signal::input("CALIN", 64, 0)])
+        .ok()?;
+    let saved = verif_hooks::take_rng_log();
+    verif_hooks::set_seed_override(Some(seed));
+    let res = catch_unwind(AssertUnwindSafe(|| {
+        if let Ok(it) = tc.try_iter_static() {
+            for _ in it {}
+        }
+    }));
+    let log = verif_hooks::take_rng_log();
+    // put the caller's log back
+    drop(saved);
+    res.ok()?;
+    let draws: Vec<i64> = log
+        .iter()
+        .filter_map(|e| if let verif_hooks::RngEvent::Draw(d) = e { Some(*d) } else { None })
+        .collect();
+    if draws.len() == bounds.len() {
+        Some(draws)
+    } else {
+        None
+    }
+}
+
+/// RNG line (the generator events of the run) and RNGCAL line: every segment of the run's draws between
+/// (re)seedings compared with the calibration draws for the same seed and the same sequence of bounds -
+/// "the run's draws are THE stream of one generator, (re)started at resetRandom, one value per evaluation".
+fn rng_lines(seed: u64) -> String {
+    let log = verif_hooks::take_rng_log();
+    let mut s = String::from("RNG");
+    let mut segs: Vec<(Vec<i64>, Vec<i64>)> = vec![(vec![], vec![])];
+    let mut bound = 0i64;
+    for ev in &log {
+        match ev {
+            verif_hooks::RngEvent::Bound(b) => {
+                let _ = write!(s, " b{b}");
+                bound = *b;
+            }
+            verif_hooks::RngEvent::Draw(d) => {
+                let _ = write!(s, " d{d}");
+                let last = segs.last_mut().unwrap();
+                last.0.push(bound);
+                last.1.push(*d);
+            }
+            verif_hooks::RngEvent::Reset => {
+                s.push_str(" R");
+                segs.push((vec![], vec![]));
+            }
+        }
+    }
+    let mut cal = String::from("RNGCAL");
+    let mut checked = 0;
+    for (k, (bounds, draws)) in segs.iter().enumerate() {
+        if bounds.is_empty() || bounds.len() > 400 {
+            continue;
+        }
+        match calibration_draws(seed, bounds) {
+            Some(want) => {
+                checked += 1;
+                if let Some(i) = (0..draws.len()).find(|&i| draws[i] != want[i]) {
+                    let _ = write!(
+                        cal,
+                        " differs:segment{k}:draw{i}:bound{}:got{}:single-stream{}",
+                        bounds[i], draws[i], want[i]
+                    );
+                    break;
+                }
+            }
+            None => {
+                let _ = write!(cal, " nocal:segment{k}");
+            }
+        }
+    }
+    let _ = write!(cal, " checked{checked}");
+    verif_hooks::set_seed_override(Some(seed));
+    format!("{s}\n{cal}")
+}
+
 fn rng_line() -> String {
     let mut s = String::from("RNG");
     for ev in verif_hooks::take_rng_log() {
@@ -689,7 +777,7 @@ fn run_dynamic<D: TestDriver<Error = DrvError>>(
             out(buf, "END panic");
         }
     }
-    out(buf, &rng_line());
+    out(buf, &rng_lines(c.seed));
     // the driver's own record of what it returned for which signal on which call (C03/C13 oracle)
     let rec = sh
         .borrow()
